@@ -661,6 +661,7 @@ type fragResult struct {
 	trafc    string
 	obs      string
 	cb, sb   int
+	opts     fragOpts
 	trackID  uint32
 	timescal uint32
 }
@@ -770,6 +771,7 @@ func (e *env) runFragment(codec byte, scheme string, key, iv []byte, samples [][
 	res.trackID = initF.Init.Moov.Trak.Tkhd.TrackID
 	frag := buildFragment(res.trackID, samples, o, r)
 	res.frag = frag
+	res.opts = o
 	p := hx.Try(func() { err = mp4.EncryptFragment(frag, key, iv, ipd) })
 	if p != "" {
 		res.class, res.obs = "panic", "panic"
@@ -1470,6 +1472,7 @@ func search(e *env, seed uint64, n int, big int) {
 	fmt.Fprintf(out, "NOTE\tmulti_fragment_prefixes\t%d\n", multiFrag)
 	fmt.Fprintf(out, "NOTE\tsamples_with_shape_oracle\t%d\n", maskChecked)
 	fmt.Fprintf(out, "NOTE\tsynthetic_hevc_fragments\t%d\n", synthFrags)
+	fmt.Fprintf(out, "NOTE\tbox_by_box_diffs\t%d\n", boxDiffs)
 	fmt.Fprintf(out, "NOTE\tfragments_with_unusual_placement\t%d\n", benignSamples)
 	fmt.Fprintf(out, "NOTE\tiv_across_fragments\tEncryptFragment has no IV state across fragments: callers (cmd/mp4ff-encrypt) start every fragment from the same IV, so with one key counter blocks repeat ACROSS fragments; the property speaks about one fragment - not alarmed\n")
 	fmt.Fprintf(out, "EVALS\t%d\n", evals)
@@ -1604,6 +1607,7 @@ func checkFragment(e *env, fr fragResult, prefix []fragResult, codec byte, schem
 	type interval struct{ lo, n uint64 } // low 64 bits are enough for the disjointness check below when no wrap of the low half
 	curIV := append([]byte{}, iv16...)
 	totalBlocks := uint64(0)
+	sencMasks := make([][]bool, nsmp)
 	for i := 0; i < nsmp; i++ {
 		clear := samples[i]
 		enc := encFs[i].Data
@@ -1677,6 +1681,7 @@ func checkFragment(e *env, fr fragResult, prefix []fragResult, codec byte, schem
 				}
 			}
 		}
+		sencMasks[i] = mask
 		// reference cipher
 		var ref []byte
 		nprot := 0
@@ -1733,6 +1738,114 @@ func checkFragment(e *env, fr fragResult, prefix []fragResult, codec byte, schem
 	// everything else in the fragment is byte-identical to the clear input: compare with the clear fragment
 	// encoded the same way, outside moof-internal protection boxes
 	checkRestUnchanged(e, fr, dfrag, samples, wit)
+	if len(prefix) == 0 && fr.frag.EncOptimize&mp4.OptimizeTrun == 0 {
+		checkBoxDiff(e, fr, fr.opts, samples, sencMasks, wit)
+	}
+}
+
+func encodeBox(b mp4.Box) []byte {
+	var buf bytes.Buffer
+	if p := hx.Try(func() { _ = b.Encode(&buf) }); p != "" {
+		return nil
+	}
+	return buf.Bytes()
+}
+
+var boxDiffs int
+
+// checkBoxDiff: "everything else in the fragment is byte-identical to the clear input", box by box on the ENCODED
+// files: the clear fragment (same samples, same options, never encrypted) and the encrypted one are both encoded and
+// decoded; the moof children must be the same boxes in the same order, the traf children the same boxes followed by
+// exactly saiz, saio, senc; every pre-existing box must be byte-identical except the trun, whose data_offset must
+// have grown by exactly the bytes added to the moof; the mdat must have the same size and differ only at byte
+// positions the senc sub-sample maps mark as protected (any position of a sample without map).
+func checkBoxDiff(e *env, fr fragResult, o fragOpts, samples [][]byte, masks [][]bool, wit string) {
+	clearFrag := buildFragment(fr.trackID, samples, o, nil)
+	seg := mp4.NewMediaSegmentWithoutStyp()
+	seg.EncOptimize = clearFrag.EncOptimize
+	seg.AddFragment(clearFrag)
+	var cb, eb bytes.Buffer
+	if err := seg.Encode(&cb); err != nil {
+		return
+	}
+	seg2 := mp4.NewMediaSegmentWithoutStyp()
+	seg2.EncOptimize = fr.frag.EncOptimize
+	seg2.AddFragment(fr.frag)
+	if err := seg2.Encode(&eb); err != nil {
+		return
+	}
+	cf, err1 := mp4.DecodeFile(bytes.NewReader(cb.Bytes()))
+	ef, err2 := mp4.DecodeFile(bytes.NewReader(eb.Bytes()))
+	if err1 != nil || err2 != nil || len(cf.Segments) != 1 || len(ef.Segments) != 1 {
+		fail("mp4.EncryptFragment", "boxdiff-decode", wit, "clear or encrypted fragment does not decode")
+		return
+	}
+	boxDiffs++
+	cfr, efr := cf.Segments[0].Fragments[0], ef.Segments[0].Fragments[0]
+	cm, em := cfr.Moof.Children, efr.Moof.Children
+	if len(cm) != len(em) {
+		fail("mp4.EncryptFragment", "boxdiff-moof-children", wit, fmt.Sprintf("moof has %d children, the clear one %d", len(em), len(cm)))
+		return
+	}
+	added := int64(efr.Moof.Size()) - int64(cfr.Moof.Size())
+	for i := range cm {
+		if cm[i].Type() != em[i].Type() {
+			fail("mp4.EncryptFragment", "boxdiff-moof-children", wit, fmt.Sprintf("moof child %d is %s, clear %s", i, em[i].Type(), cm[i].Type()))
+			return
+		}
+		if cm[i].Type() != "traf" {
+			if !bytes.Equal(encodeBox(cm[i]), encodeBox(em[i])) {
+				fail("mp4.EncryptFragment", "boxdiff-box-changed", wit, "moof child "+cm[i].Type()+" differs from the clear input")
+			}
+			continue
+		}
+		ct, et := cm[i].(*mp4.TrafBox).Children, em[i].(*mp4.TrafBox).Children
+		if len(et) != len(ct)+3 || et[len(ct)].Type() != "saiz" || et[len(ct)+1].Type() != "saio" || et[len(ct)+2].Type() != "senc" {
+			var ts []string
+			for _, b := range et {
+				ts = append(ts, b.Type())
+			}
+			fail("mp4.EncryptFragment", "boxdiff-traf-children", wit, fmt.Sprintf("traf children %v: not the %d clear ones followed by saiz, saio, senc", ts, len(ct)))
+			return
+		}
+		if int64(et[len(ct)].Size()+et[len(ct)+1].Size()+et[len(ct)+2].Size()) != added {
+			fail("mp4.EncryptFragment", "boxdiff-moof-size", wit, fmt.Sprintf("moof grew by %d bytes, saiz+saio+senc have %d", added,
+				et[len(ct)].Size()+et[len(ct)+1].Size()+et[len(ct)+2].Size()))
+		}
+		for j := range ct {
+			if ct[j].Type() != et[j].Type() {
+				fail("mp4.EncryptFragment", "boxdiff-traf-children", wit, fmt.Sprintf("traf child %d is %s, clear %s", j, et[j].Type(), ct[j].Type()))
+				return
+			}
+			cbx, ebx := encodeBox(ct[j]), encodeBox(et[j])
+			if ct[j].Type() == "trun" {
+				ctr, etr := ct[j].(*mp4.TrunBox), et[j].(*mp4.TrunBox)
+				if int64(etr.DataOffset)-int64(ctr.DataOffset) != added {
+					fail("mp4.EncryptFragment", "boxdiff-trun-data-offset", wit, fmt.Sprintf("trun data offset %d, clear %d, moof grew by %d", etr.DataOffset, ctr.DataOffset, added))
+				}
+				etr.DataOffset = ctr.DataOffset
+				ebx = encodeBox(etr)
+			}
+			if !bytes.Equal(cbx, ebx) {
+				fail("mp4.EncryptFragment", "boxdiff-box-changed", wit, "traf child "+ct[j].Type()+" differs from the clear input")
+			}
+		}
+	}
+	cd, ed := cfr.Mdat.Data, efr.Mdat.Data
+	if len(cd) != len(ed) {
+		fail("mp4.EncryptFragment", "boxdiff-mdat-size", wit, fmt.Sprintf("mdat payload %d bytes, clear %d", len(ed), len(cd)))
+		return
+	}
+	pos := 0
+	for i, s := range samples {
+		for j := range s {
+			if cd[pos+j] != ed[pos+j] && masks[i] != nil && !masks[i][j] {
+				fail("mp4.EncryptFragment", "boxdiff-clear-byte-changed", wit, fmt.Sprintf("sample %d byte %d is not protected by the senc map but differs from the clear input", i, j))
+				return
+			}
+		}
+		pos += len(s)
+	}
 }
 
 func classOfS(p string, err error) string {
